@@ -88,6 +88,17 @@ theorem map_at0_range_ge (x : List Rat) (r : Nat) (h : x.length ≤ r) :
       simp only [List.getElem_replicate]
       exact at0_of_ge x i (by omega)
 
+/-! ## the mechanism before /repo 5e4648b: `np.trim_zeros` between the quotient and the slice -/
+
+/-- `np.trim_zeros` -/
+def trimZeros (l : List Rat) : List Rat :=
+  ((l.dropWhile (· == 0)).reverse.dropWhile (· == 0)).reverse
+
+/-- `deconvolve(c, psf)` before the repair: `np.trim_zeros(np.real(y))[: c.size - psf.size - 1]` -/
+def deconvolveOld (c psf : List Rat) : List Rat :=
+  let r := nextPow2 (max c.length psf.length)
+  pySliceTo (trimZeros (seriesDiv c psf r)) ((c.length : Int) - (psf.length : Int) - 1)
+
 theorem dropWhile_zeros (k : Nat) (l : List Rat) :
     (List.replicate k (0 : Rat) ++ l).dropWhile (· == 0) = l.dropWhile (· == 0) := by
   induction k with
@@ -102,7 +113,9 @@ theorem dropWhile_head_ne (l : List Rat) (h : ∀ a, l.head? = some a → a ≠ 
     have := h a rfl
     simp [List.dropWhile_cons, this]
 
-theorem trimZeros_append_zeros (x : List Rat) (hx : ∀ v ∈ x, v ≠ 0) (k : Nat) :
+/-- trailing zeros go; a list whose first and last entries are non-zero stays -/
+theorem trimZeros_append_zeros (x : List Rat) (hh : ∀ a, x.head? = some a → a ≠ 0)
+    (hl : ∀ a, x.getLast? = some a → a ≠ 0) (k : Nat) :
     trimZeros (x ++ List.replicate k 0) = x := by
   unfold trimZeros
   cases x with
@@ -112,24 +125,41 @@ theorem trimZeros_append_zeros (x : List Rat) (hx : ∀ v ∈ x, v ≠ 0) (k : N
       simpa using this
     simp [this]
   | cons a t =>
-    rw [dropWhile_head_ne (a :: t ++ List.replicate k 0) (by intro b hb; simp at hb; subst hb; exact hx _ (by simp))]
+    rw [dropWhile_head_ne (a :: t ++ List.replicate k 0) (by intro b hb; simp at hb; subst hb; exact hh _ (by simp))]
     rw [List.reverse_append, List.reverse_replicate, dropWhile_zeros]
     rw [dropWhile_head_ne]
     · simp
     · intro b hb
-      have : b ∈ (a :: t).reverse := List.mem_of_mem_head? hb
-      exact hx b (List.mem_reverse.mp this)
+      rw [List.head?_reverse] at hb
+      exact hl b hb
 
 theorem le_nextPow2 (n : Nat) : n ≤ nextPow2 n := by
   unfold nextPow2
   split
   · omega
-  · have := Nat.lt_log2_self (n := n - 1)
-    omega
+  · split
+    · omega
+    · have := Nat.lt_log2_self (n := n - 1)
+      omega
+
+theorem seriesDiv_length (c psf : List Rat) (r : Nat) : (seriesDiv c psf r).length = r := by
+  induction r with
+  | zero => rfl
+  | succ r ih => simp [seriesDiv, ih]
+
+theorem pySliceTo_length {α : Type} (l : List α) (k : Int) :
+    (pySliceTo l k).length = if 0 ≤ k then min k.toNat l.length else l.length - (-k).toNat := by
+  unfold pySliceTo
+  split <;> simp
 
 /-! ## sums -/
 
 theorem sum_map_div (l : List Rat) (c : Rat) : (l.map (· / c)).sum = l.sum / c := by
+  simp only [div_eq_mul_inv]
+  rw [List.sum_map_mul_right]
+  simp
+
+theorem sum_map_div_field {K : Type} [Field K] (l : List K) (c : K) : (l.map (· / c)).sum = l.sum / c := by
   simp only [div_eq_mul_inv]
   rw [List.sum_map_mul_right]
   simp
